@@ -147,16 +147,6 @@ Proof.
     exists (o :: os). split; [constructor; [exact Ho|exact Hf]|]. destruct o; reflexivity.
 Qed.
 
-(** the configuration and the misspellings a mode works with *)
-Definition mode_cfg (mode : nat) (fd : bool) (items : list item) : option wcfg :=
-  if has_tables mode then
-    match build_tables items with
-    | TOk it rt => Some (spell_cfg fd (Some (it, rt)))
-    | TPanic => None
-    end
-  else Some (spell_cfg fd None).
-Definition mode_miss (mode : nat) (m : miss) : miss := if has_miss mode then m else [].
-
 Lemma mode_cfg_ok mode fd items wc : (has_tables mode = true -> items_sane items = true) ->
   mode_cfg mode fd items = Some wc -> wtabs_ok wc = true.
 Proof.
